@@ -92,4 +92,26 @@ PLAN = {
         "tiers": {"quick": {"params": {"naddr": 2, "items": 1, "depth": 2, "pages": 1}, "harness": "VfC02_(Addressing|Resolve)", "timeout_s": 900, "bounds": "slices Addressing (<=2 recipients) and Resolve (1 recipient, <=1 item, depth 1..2, pages included); the Mixed slice runs in the thorough tier only"},
                   "thorough": {"params": {"naddr": 3, "items": 2, "depth": 2, "pages": 1}, "timeout_s": 10000}},
     },
+    "C05": {
+        "level_text": "Client POST / Send of (a) a bare Note, (b) a Create with 1..2 embedded Notes, 1..2 actors, optional attributedTo, recipients on activity and object drawn from a menu of address patterns whose same-property entries may alias (solver-decided overlap), (c) Like/Follow/Update/Listen for the ordering clauses; pre-state outbox arbitrary (empty or two symbolic ids = one inductive step for 'newest first'); Social/Federating configurations: the JSON snapshot taken at Database.Create shows the wrapping Create (actor = owner, five addressing properties and published copied), fresh ids on activity and every Create object, attribution and recipient unions as set equalities, each object stored once, the activity stored once, SetOutbox = new id followed by the previous entries, every persistence call before any BatchDeliver, 201 + Location = id; with one injected fault nothing is delivered after a failed persistence step.",
+        "level_note": "Trusted: symgo, stdlib models, cvc5; ids of the request pairwise distinct except same-property activity/object recipients and attributedTo vs actors; every recipient has an application-stored inbox (resolution is C02's subject); histories are covered by the inductive step on the outbox page, not run",
+        "pkg": "./pub",
+        "explanation": EXPL + "C05: snapshots of what reaches Database.Create/SetOutbox and Transport.BatchDeliver compared with reference unions and orderings.",
+        "bounds": "quick: 1 object, 4 address patterns, no faults; thorough: 1..2 objects, 7 patterns, 1 fault",
+        "outside": "3+ objects; recipients that alias across different properties; sequences of posts (inductive step instead)",
+        "assumptions": COMMON_ASSUME + ["NewID returns ids different from every id in the request"],
+        "covers_by_harness": {"VfC05_Create": ["normalised", "accepted"], "VfC05_BareObject": ["wrapped", "accepted"]},
+        "tiers": {"quick": {"params": {"nobj": 1, "patterns": 4, "faults": 0}, "timeout_s": 1200}, "thorough": {"params": {"nobj": 2, "patterns": 7, "faults": 1}, "timeout_s": 10000}},
+    },
+    "C03": {
+        "level_text": "For client POSTs and Send of bare objects, Creates (1..2 objects) and other activities under all protocol configurations, the automatic Accept/Reject of a Follow, with bto/bcc placed by address pattern on the activity and/or the embedded object (as IRIs and as embedded actors): the JSON tree behind every payload handle given to BatchDeliver/Deliver has no bto/bcc on the root or on any value under 'object', and the inbox of every hidden recipient of the activity is among the recipients; for the GET handler: stored values with an 'object' chain of depth 1..3 through types from {Create, Offer, Note, Relationship, Tombstone, Announce} with bto/bcc at a chosen depth are served without bto/bcc at any depth.",
+        "level_note": "Trusted: as C05; json.Marshal/Unmarshal are tree handles (byte-level JSON outside the claim); hidden recipients placed in unknown members of Link-family types are outside (the outbox rejects them under the Social protocol)",
+        "pkg": "./pub",
+        "explanation": EXPL + "C03: assertion on the JSON snapshot behind each byte handle that leaves through the Transport or the ResponseWriter.",
+        "bounds": "as C05; handler: object depth <= 3",
+        "outside": "object nesting deeper than 3; hidden recipients of a non-Create activity's embedded object are required to be stripped but not required to be delivered to",
+        "assumptions": COMMON_ASSUME,
+        "covers_by_harness": {"VfC03_(Create|BareObject|Other_.*|AutoReply)": ["payload"]},
+        "tiers": {"quick": {"params": {"nobj": 1, "patterns": 4, "hdepth": 2}, "timeout_s": 1200}, "thorough": {"params": {"nobj": 2, "patterns": 7, "hdepth": 3}, "timeout_s": 10000}},
+    },
 }
